@@ -18,6 +18,7 @@ import (
 	"path/filepath"
 	"sort"
 	"strings"
+	"sync"
 
 	"github.com/nspcc-dev/neo-go/pkg/compiler"
 	"github.com/nspcc-dev/neo-go/pkg/config"
@@ -221,12 +222,18 @@ type c01Obs struct {
 	NewEpoch  []int    `json:"compute_next_validators"`
 	Policy    []int64  `json:"policy"` // feePerByte, baseExecFee, storagePrice, maxTraceable, maxVUBInc, msPerBlock
 	Blocked   []int    `json:"blocked"`
-	Queries   string   `json:"queries"` // digest of read-only contract method answers (served from the native caches)
+	// digests of read-only contract method answers (served from the native caches), by group
+	QPolicy    string `json:"q_policy"`    // Policy.isBlocked of every universe account, fee getters
+	QNeo       string `json:"q_neo"`       // NEO getCommittee, getNextBlockValidators, getCandidates, getGasPerBlock, getRegisterPrice, getCandidateVote
+	QUnclaimed string `json:"q_unclaimed"` // NEO.unclaimedGas of every universe account (reads the gas-per-vote cache)
+	QAccounts  string `json:"q_accounts"`  // NEO.getAccountState of every universe account
+	QNotary    string `json:"q_notary"`    // Notary balanceOf / expirationOf / getMaxNotValidBeforeDelta
 	Enroll    string   `json:"enrollments"`
 	Natives   string   `json:"natives"`
 	Contracts string   `json:"contracts"`
 	Roles     string   `json:"roles"`
 	Err       []string `json:"err,omitempty"`
+	items     map[string][]byte // full contract storage ("id:keyhex" -> value), for the diagnosis of a divergence
 }
 
 func c01Hash(parts ...[]byte) string {
@@ -270,8 +277,10 @@ func c01Observe(bc *core.Blockchain, u *c05Universe, b *block.Block) *c01Obs {
 		return string(items[i].k) < string(items[j].k)
 	})
 	hs := sha256.New()
+	o.items = make(map[string][]byte, len(items))
 	for _, it := range items {
 		fmt.Fprintf(hs, "%d:%x=%x;", it.id, it.k, it.v)
+		o.items[fmt.Sprintf("%d:%x", it.id, it.k)] = it.v
 	}
 	o.Storage = hex.EncodeToString(hs.Sum(nil))[:24]
 	o.NItems = len(items)
@@ -318,7 +327,7 @@ func c01Observe(bc *core.Blockchain, u *c05Universe, b *block.Block) *c01Obs {
 	}
 	o.Policy = []int64{bc.FeePerByte(), bc.GetBaseExecFee(), bc.GetStoragePrice(), int64(bc.GetMaxTraceableBlocks()),
 		int64(bc.GetMaxValidUntilBlockIncrement()), int64(bc.GetMillisecondsPerBlock())}
-	o.Queries, o.Blocked = c01Queries(bc, u, bad)
+	c01Queries(bc, u, o, bad)
 	if en, err := bc.GetEnrollments(); err != nil {
 		bad("GetEnrollments: %v", err)
 	} else {
@@ -383,77 +392,142 @@ func c01Observe(bc *core.Blockchain, u *c05Universe, b *block.Block) *c01Obs {
 }
 
 // c01Queries runs read-only contract methods (they answer from the native caches) in one test invocation at the
-// tip and returns a digest of the resulting stack: Policy getters and isBlocked for every universe account, NEO
-// getCommittee / getNextBlockValidators / getCandidates / getGasPerBlock / getRegisterPrice / getCandidateVote and
-// unclaimedGas of every universe account (which reads the gas-per-vote cache).
-func c01Queries(bc *core.Blockchain, u *c05Universe, bad func(string, ...any)) (string, []int) {
+// tip and stores digests of the resulting stack by group.
+func c01Queries(bc *core.Blockchain, u *c05Universe, o *c01Obs, bad func(string, ...any)) {
 	neoH, _ := bc.GetNativeContractScriptHash(nativenames.Neo)
 	polH, _ := bc.GetNativeContractScriptHash(nativenames.Policy)
 	notH, _ := bc.GetNativeContractScriptHash(nativenames.Notary)
 	w := io.NewBufBinWriter()
-	call := func(h util.Uint160, m string, args ...any) { emit.AppCall(w.BinWriter, h, m, callflag.ReadOnly, args...) }
+	var groups []int // group of the i-th call: 0 policy, 1 neo, 2 unclaimed, 3 accounts, 4 notary
+	call := func(g int, h util.Uint160, m string, args ...any) {
+		emit.AppCall(w.BinWriter, h, m, callflag.ReadOnly, args...)
+		groups = append(groups, g)
+	}
 	for i := 0; i < c05AFixed; i++ {
-		call(polH, "isBlocked", u.hashes[i])
+		call(0, polH, "isBlocked", u.hashes[i])
 	}
 	nq := c05AFixed
-	call(polH, "getFeePerByte")
-	call(polH, "getExecFeeFactor")
-	call(polH, "getStoragePrice")
+	call(0, polH, "getFeePerByte")
+	call(0, polH, "getExecFeeFactor")
+	call(0, polH, "getStoragePrice")
 	for _, a := range []int64{1, 0x11, 0x20, 0x21, 0x22} {
-		call(polH, "getAttributeFee", a)
+		call(0, polH, "getAttributeFee", a)
 	}
-	call(neoH, "getCommittee")
-	call(neoH, "getNextBlockValidators")
-	call(neoH, "getCandidates")
-	call(neoH, "getGasPerBlock")
-	call(neoH, "getRegisterPrice")
+	call(1, neoH, "getCommittee")
+	call(1, neoH, "getNextBlockValidators")
+	call(1, neoH, "getCandidates")
+	call(1, neoH, "getGasPerBlock")
+	call(1, neoH, "getRegisterPrice")
 	for _, k := range u.keys {
-		call(neoH, "getCandidateVote", k.Bytes())
+		call(1, neoH, "getCandidateVote", k.Bytes())
 	}
 	for i := 0; i < c05AFixed; i++ {
-		call(neoH, "unclaimedGas", u.hashes[i], int64(bc.BlockHeight()+1))
-		call(neoH, "getAccountState", u.hashes[i])
-		call(notH, "balanceOf", u.hashes[i])
-		call(notH, "expirationOf", u.hashes[i])
+		call(2, neoH, "unclaimedGas", u.hashes[i], int64(bc.BlockHeight()+1))
+		call(3, neoH, "getAccountState", u.hashes[i])
+		call(4, notH, "balanceOf", u.hashes[i])
+		call(4, notH, "expirationOf", u.hashes[i])
 	}
-	call(notH, "getMaxNotValidBeforeDelta")
+	call(4, notH, "getMaxNotValidBeforeDelta")
 	ic, err := bc.GetTestVM(trigger.Application, nil, nil)
 	if err != nil {
 		bad("GetTestVM: %v", err)
-		return "", nil
+		return
 	}
 	defer ic.Finalize()
 	ic.VM.LoadScriptWithFlags(w.Bytes(), callflag.ReadOnly)
 	ic.VM.SetGasLimit(1000_0000_0000)
 	if err := ic.VM.Run(); err != nil {
 		bad("read-only queries faulted: %v", err)
-		return "", nil
+		return
 	}
 	items := ic.VM.Estack().ToArray()
-	var blocked []int
-	var parts [][]byte
+	if len(items) != len(groups) {
+		bad("read-only queries: %d answers for %d calls", len(items), len(groups))
+		return
+	}
+	parts := make([][][]byte, 5)
 	for i, it := range items {
 		j, err := stackitem.ToJSONWithTypes(it)
 		if err != nil {
 			j = []byte(err.Error())
 		}
-		parts = append(parts, j)
+		parts[groups[i]] = append(parts[groups[i]], j)
 		if i < nq {
 			if b, err := it.TryBool(); err == nil && b {
-				blocked = append(blocked, i)
+				o.Blocked = append(o.Blocked, i)
 			}
 		}
 	}
-	return c01Hash(parts...), blocked
+	o.QPolicy, o.QNeo, o.QUnclaimed, o.QAccounts, o.QNotary = c01Hash(parts[0]...), c01Hash(parts[1]...), c01Hash(parts[2]...), c01Hash(parts[3]...), c01Hash(parts[4]...)
 }
 
-// c01Diff names the fields in which two observations differ.
-func c01Diff(a, b *c01Obs) []string {
-	var d []string
+var c01ContractNames = map[string]string{"-1": "Management", "-4": "Ledger", "-5": "NEO", "-6": "GAS", "-7": "Policy", "-8": "Designate", "-9": "Oracle", "-10": "Notary", "-11": "Treasury"}
+
+// c01KeyDiff lists the categories (contract:prefix, with the differing fields for NEO account items) of the storage
+// items in which two nodes differ.
+func c01KeyDiff(a, b *c01Obs) []string {
+	cats := map[string]bool{}
+	cat := func(key string, va, vb []byte) string {
+		id, kh, _ := strings.Cut(key, ":")
+		name := c01ContractNames[id]
+		if name == "" {
+			name = "contract" + id
+		}
+		pfx := "?"
+		if len(kh) >= 2 {
+			if b, err := hex.DecodeString(kh[:2]); err == nil {
+				pfx = fmt.Sprint(b[0])
+			}
+		}
+		c := name + ":" + pfx
+		if name == "NEO" && pfx == "20" && va != nil && vb != nil {
+			x, e1 := state.NEOBalanceFromBytes(va)
+			y, e2 := state.NEOBalanceFromBytes(vb)
+			if e1 == nil && e2 == nil {
+				var f []string
+				if x.Balance.Cmp(&y.Balance) != 0 {
+					f = append(f, "balance")
+				}
+				if x.BalanceHeight != y.BalanceHeight {
+					f = append(f, "height")
+				}
+				if (x.VoteTo == nil) != (y.VoteTo == nil) || (x.VoteTo != nil && !x.VoteTo.Equal(y.VoteTo)) {
+					f = append(f, "vote")
+				}
+				if x.LastGasPerVote.Cmp(&y.LastGasPerVote) != 0 {
+					f = append(f, "lastGasPerVote")
+				}
+				c += "[" + strings.Join(f, ",") + "]"
+			}
+		}
+		return c
+	}
+	for k, va := range a.items {
+		if vb, ok := b.items[k]; !ok {
+			cats[cat(k, va, nil)+"(missing on replica)"] = true
+		} else if string(va) != string(vb) {
+			cats[cat(k, va, vb)] = true
+		}
+	}
+	for k, vb := range b.items {
+		if _, ok := a.items[k]; !ok {
+			cats[cat(k, nil, vb)+"(missing on source)"] = true
+		}
+	}
+	var l []string
+	for c := range cats {
+		l = append(l, c)
+	}
+	sort.Strings(l)
+	return l
+}
+
+// c01Diff names the fields in which two observations differ (fields, "field: source X, replica Y").
+func c01Diff(a, b *c01Obs) (fields, detail []string) {
 	ja, _ := json.Marshal(a)
 	jb, _ := json.Marshal(b)
 	if string(ja) == string(jb) {
-		return nil
+		return nil, nil
 	}
 	var ma, mb map[string]any
 	json.Unmarshal(ja, &ma)
@@ -462,17 +536,35 @@ func c01Diff(a, b *c01Obs) []string {
 		x, _ := json.Marshal(ma[k])
 		y, _ := json.Marshal(mb[k])
 		if string(x) != string(y) {
-			d = append(d, fmt.Sprintf("%s: source %s, replica %s", k, x, y))
+			fields = append(fields, k)
+			detail = append(detail, fmt.Sprintf("%s: source %s, replica %s", k, x, y))
 		}
 	}
 	for k := range mb {
 		if _, ok := ma[k]; !ok {
 			y, _ := json.Marshal(mb[k])
-			d = append(d, fmt.Sprintf("%s: source (absent), replica %s", k, y))
+			fields = append(fields, k)
+			detail = append(detail, fmt.Sprintf("%s: source (absent), replica %s", k, y))
 		}
 	}
-	sort.Strings(d)
-	return d
+	sort.Strings(fields)
+	sort.Strings(detail)
+	return
+}
+
+// c01Divergence describes the first height at which a replica differs from the source node.
+type c01Divergence struct {
+	Height       int      `json:"height"`
+	AfterRestart bool     `json:"after_restart"` // seen right after reopening, before the next block
+	Fields       []string `json:"fields"`
+	Keys         []string `json:"storage_keys"`
+	Detail       []string `json:"detail"`
+	Error        string   `json:"error,omitempty"`
+	// circumstances (used to tell listed findings from anything else)
+	EpochEnd         bool   `json:"at_last_block_of_epoch"`
+	RestartedInEpoch bool   `json:"restarted_in_this_epoch"`
+	BlocklistChanged bool   `json:"blocklist_changed_in_this_epoch"`
+	Signature        string `json:"signature"`
 }
 
 // ---------- replicas ----------
@@ -533,7 +625,7 @@ func c01OpenStore(kind, dir string) (storage.Store, error) {
 }
 
 // c01RunReplica feeds the blocks to one replica and returns the first height at which it differs from the source.
-func c01RunReplica(p c01Proto, rp c01Replica, src *c05Chain, blocks []*block.Block, obs []*c01Obs) (height int, diff []string, err error) {
+func c01RunReplica(p c01Proto, rp c01Replica, src *c05Chain, blocks []*block.Block, obs []*c01Obs) (dv *c01Divergence, err error) {
 	t := &c05TB{}
 	defer t.done()
 	dir := t.TempDir()
@@ -548,12 +640,34 @@ func c01RunReplica(p c01Proto, rp c01Replica, src *c05Chain, blocks []*block.Blo
 	}
 	bc, err := open()
 	if err != nil {
-		return 0, nil, err
+		return nil, err
 	}
 	defer func() { bc.Close() }()
 	restart := map[int]bool{}
 	for _, h := range rp.Restarts {
 		restart[h] = true
+	}
+	mk := func(i int, after bool, mine *c01Obs, fields, detail []string, errs string) *c01Divergence {
+		h := int(blocks[i].Index)
+		d := &c01Divergence{Height: h, AfterRestart: after, Fields: fields, Detail: detail, Error: errs}
+		if mine != nil {
+			d.Keys = c01KeyDiff(obs[i], mine)
+		}
+		csz := src.csz
+		d.EpochEnd = (h+1)%csz == 0
+		e0 := h - h%csz // first block of the epoch
+		for x := e0; x <= h; x++ {
+			if restart[x] && rp.Store != "mem" && (x < h || after) {
+				d.RestartedInEpoch = true
+			}
+		}
+		// blocked accounts at the end of the previous epoch vs now (obs[j] belongs to height j+1)
+		if e0-2 >= 0 && e0-2 < len(obs) {
+			d.BlocklistChanged = fmt.Sprint(obs[e0-2].Blocked) != fmt.Sprint(obs[i].Blocked)
+		}
+		d.Signature = fmt.Sprintf("fields=%s;keys=%s;epoch_end=%v;restarted_in_epoch=%v;blocklist_changed_in_epoch=%v;after_restart=%v",
+			strings.Join(d.Fields, ","), strings.Join(d.Keys, ","), d.EpochEnd, d.RestartedInEpoch, d.BlocklistChanged, after)
+		return d
 	}
 	junkNonce := uint32(1 << 30)
 	for i, b := range blocks {
@@ -583,7 +697,7 @@ func c01RunReplica(p c01Proto, rp c01Replica, src *c05Chain, blocks []*block.Blo
 			}
 		}
 		if err := bc.AddBlock(b); err != nil {
-			return int(b.Index), []string{"AddBlock: " + err.Error()}, nil
+			return mk(i, false, nil, []string{"AddBlock"}, nil, "AddBlock: "+err.Error()), nil
 		}
 		switch rp.Flush {
 		case "every":
@@ -602,26 +716,25 @@ func c01RunReplica(p c01Proto, rp c01Replica, src *c05Chain, blocks []*block.Blo
 			}
 		}
 		if err != nil {
-			return int(b.Index), []string{"VerifPersist: " + err.Error()}, nil
+			return mk(i, false, nil, []string{"VerifPersist"}, nil, "VerifPersist: "+err.Error()), nil
 		}
-		if d := c01Diff(obs[i], c01Observe(bc, src.u, b)); d != nil {
-			return int(b.Index), d, nil
+		mine := c01Observe(bc, src.u, b)
+		if f, d := c01Diff(obs[i], mine); f != nil {
+			return mk(i, false, mine, f, d, ""), nil
 		}
 		if restart[int(b.Index)] && rp.Store != "mem" {
 			bc.Close()
 			bc, err = open()
 			if err != nil {
-				return int(b.Index), []string{"restart: " + err.Error()}, nil
+				return mk(i, true, nil, []string{"restart"}, nil, "restart: "+err.Error()), nil
 			}
-			if d := c01Diff(obs[i], c01Observe(bc, src.u, b)); d != nil {
-				for j := range d {
-					d[j] = "after restart: " + d[j]
-				}
-				return int(b.Index), d, nil
+			mine = c01Observe(bc, src.u, b)
+			if f, d := c01Diff(obs[i], mine); f != nil {
+				return mk(i, true, mine, f, d, ""), nil
 			}
 		}
 	}
-	return 0, nil, nil
+	return nil, nil
 }
 
 // ---------- generator ----------
@@ -697,38 +810,94 @@ func c01Generate(r *rng, c *c05Chain, run *c05Runner, nblocks int) ([]c05Op, err
 	}
 	deployed := map[int]bool{}
 	if r.chance(80) {
-		// voters 1..7 get 1M..7M NEO (28M = 28% turnout), candidates: six of the 14 keys, each voted by one voter
-		cands := append([]int{}, c05Signers...)
-		for i := len(cands) - 1; i > 0; i-- {
-			j := r.intn(i + 1)
-			cands[i], cands[j] = cands[j], cands[i]
-		}
-		n := 6 + r.intn(2)
-		for i := 0; i < n; i++ {
-			v := 1 + i
-			if err := emit(c05Op{T: "nt", F: 0, To: v, A: int64(n-i) * 1_000_000}, c05Op{T: "reg", F: cands[i]}); err != nil {
-				return g.ops, err
-			}
-		}
-		if err := emit(c05Op{T: "blk"}); err != nil {
-			return g.ops, err
-		}
-		for i := 0; i < n; i++ {
-			if err := emit(c05Op{T: "vote", F: 1 + i, K: c.u.keyOfAcct[cands[i]]}); err != nil {
-				return g.ops, err
-			}
-		}
-		if err := emit(c05Op{T: "blk"}); err != nil {
+		if err := g.push(); err != nil {
 			return g.ops, err
 		}
 	}
+	// voters of a key / elected committee members with votes, at the last block boundary
+	votersOf := func(k int) []int {
+		var l []int
+		for _, a := range g.snap.Neo {
+			if a.Vote == k && a.A >= 1 && a.A <= 14 {
+				l = append(l, a.A)
+			}
+		}
+		return l
+	}
+	voted := func() []int {
+		var l []int
+		for _, m := range g.snap.Committee {
+			if m.V != "0" && m.K < len(c.u.keys) {
+				l = append(l, m.K)
+			}
+		}
+		return l
+	}
+	quietUntil := 0 // blocks up to this height carry no operation that moves NEO or touches candidates
+	var later [][]c05Op // scripted continuations: later[i] goes into the i-th next block
 	for b := 0; b < nblocks; b++ {
+		h := int(c.bc.BlockHeight()) + 1 // the block being filled
+		if len(later) > 0 {
+			if err := emit(later[0]...); err != nil {
+				return g.ops, err
+			}
+			later = later[1:]
+		}
+		if vs := voted(); len(vs) > 0 && len(later) == 0 && h > quietUntil {
+			switch x := r.intn(100); {
+			case x < 10 && h%c.csz != 0:
+				// a committee member's account is blocked (or a blocked one unblocked) and nothing moves NEO until
+				// the epoch has ended: the committee of the next epoch must not depend on whether the node restarted
+				k := pick(r, vs)
+				if len(g.snap.Blocked) > 0 && r.chance(40) {
+					if err := emit(c05Op{T: "unblock", To: pick(r, g.snap.Blocked)}); err != nil {
+						return g.ops, err
+					}
+				} else if err := emit(c05Op{T: "block", To: c.u.acctOfKey[k]}); err != nil {
+					return g.ops, err
+				}
+				quietUntil = (h/c.csz+1)*c.csz + r.intn(3)
+			case x < 20:
+				// a voted candidate loses its voters and unregisters (its record is dropped), registers again later and
+				// is voted again
+				k := pick(r, vs)
+				vl := votersOf(k)
+				var ops1 []c05Op
+				for _, v := range vl {
+					ops1 = append(ops1, c05Op{T: "vote", F: v, K: -1})
+				}
+				if err := emit(ops1...); err != nil {
+					return g.ops, err
+				}
+				gap := r.intn(3)
+				later = append(later, []c05Op{{T: "unreg", F: c.u.acctOfKey[k]}})
+				for i := 0; i < gap; i++ {
+					later = append(later, nil)
+				}
+				later = append(later, []c05Op{{T: "reg", F: c.u.acctOfKey[k]}})
+				for i := 0; i < r.intn(2); i++ {
+					later = append(later, nil)
+				}
+				var ops2 []c05Op
+				for _, v := range vl {
+					ops2 = append(ops2, c05Op{T: "vote", F: v, To: c.u.acctOfKey[k]})
+				}
+				later = append(later, ops2)
+			}
+		}
 		n := r.intn(4)
 		if r.chance(30) {
 			n = 0
 		}
 		for i := 0; i < n; i++ {
-			if err := emit(c01RandomOp(g, deployed)); err != nil {
+			op := c01RandomOp(g, deployed)
+			if h <= quietUntil {
+				switch op.T {
+				case "nt", "vote", "reg", "unreg", "regpay", "fault", "oog", "block", "unblock":
+					continue
+				}
+			}
+			if err := emit(op); err != nil {
 				return g.ops, err
 			}
 		}
@@ -779,7 +948,12 @@ func c01Replicas(r *rng, nblocks int, tier string) []c01Replica {
 		for _, h := range all() {
 			out = append(out, c01Replica{Store: pick(r, []string{"level", "bolt"}), Flush: pick(r, []string{"never", "random"}), Restarts: []int{h}, Seed: seed()})
 		}
-		out = append(out, c01Replica{Store: "level", Flush: "random", Restarts: all(), Seed: seed()})
+		// consecutive restarts: every height of one third of the chain (three replicas, so none is the long pole)
+		a := all()
+		for part := 0; part < 3; part++ {
+			lo, hi := part*len(a)/3, (part+1)*len(a)/3
+			out = append(out, c01Replica{Store: pick(r, []string{"level", "bolt"}), Flush: "random", Restarts: a[lo:hi], Seed: seed()})
+		}
 	} else {
 		// every epoch-relative offset at least once
 		for off := 0; off < 6; off++ {
@@ -801,19 +975,15 @@ func c01RunCase(co *caseOut, in c01Input, gen func(c *c05Chain, run *c05Runner) 
 		return err
 	}
 	defer c.close()
-	run := &c05Runner{c: c}
 	// block 1 (the prelude) is part of what replicas are fed
 	var blocks []*block.Block
 	var obs []*c01Obs
-	b1, err := c.bc.GetBlock(c.bc.GetHeaderHash(1))
-	if err != nil {
-		return err
-	}
-	blocks = append(blocks, b1)
-	obs = append(obs, c01Observe(c.bc, c.u, b1))
-	run.onBlock = func(rec *c05BlockRec) {
+	run, err := c05NewRunner(c, func(rec *c05BlockRec) {
 		blocks = append(blocks, rec.blk)
 		obs = append(obs, c01Observe(c.bc, c.u, rec.blk))
+	})
+	if err != nil {
+		return err
 	}
 	if gen != nil {
 		in.Ops, err = gen(c, run)
@@ -840,22 +1010,48 @@ func c01RunCase(co *caseOut, in c01Input, gen func(c *c05Chain, run *c05Runner) 
 	if mkReplicas != nil {
 		in.Replicas = mkReplicas(len(blocks))
 	}
+	// replicas are independent nodes: run them on a small worker pool, report in order
+	type rres struct {
+		dv  *c01Divergence
+		err error
+	}
+	res := make([]rres, len(in.Replicas))
+	var wg sync.WaitGroup
+	sem := make(chan struct{}, 8)
+	for i := range in.Replicas {
+		wg.Add(1)
+		sem <- struct{}{}
+		go func(i int) {
+			defer wg.Done()
+			defer func() { <-sem }()
+			defer func() {
+				if r := recover(); r != nil {
+					res[i].err = fmt.Errorf("panic: %v", r)
+				}
+			}()
+			res[i].dv, res[i].err = c01RunReplica(in.Proto, in.Replicas[i], c, blocks, obs)
+		}(i)
+	}
+	wg.Wait()
 	nviol := 0
-	for _, rp := range in.Replicas {
-		h, diff, err := c01RunReplica(in.Proto, rp, c, blocks, obs)
+	seenSig := map[string]bool{}
+	for i, rp := range in.Replicas {
+		dv, err := res[i].dv, res[i].err
 		if err != nil {
 			return fmt.Errorf("replica %+v: %w", rp, err)
 		}
 		stats["replicas"]++
 		stats["heights"] += len(blocks)
 		stats["restarts"] += len(rp.Restarts)
-		if diff != nil {
-			nviol++
-			if nviol <= 3 {
+		if dv != nil {
+			// one report per distinct signature of a history (many replicas hit the same divergence)
+			if !seenSig[dv.Signature] && nviol < 6 {
+				seenSig[dv.Signature] = true
+				nviol++
 				one := in
 				one.Replicas = []c01Replica{rp}
-				co.violation("history", fmt.Sprintf("replica diverges from the source node at height %d: %s", h, strings.Join(diff, "; ")),
-					one, map[string]any{"height": h, "replica": rp, "diff": diff})
+				co.violation("history", fmt.Sprintf("%s: replica diverges from the source node at height %d: %s", dv.Signature, dv.Height, strings.Join(dv.Detail, "; ")),
+					one, map[string]any{"replica": rp, "divergence": dv})
 			}
 		}
 	}
@@ -875,6 +1071,9 @@ func c01Tag(ops []c05Op, blocks []*c05BlockRec) (string, bool) {
 		}
 		last = s
 		for _, t := range b.Txs {
+			if t.Op < 0 {
+				continue
+			}
 			switch ops[t.Op].T {
 			case "block", "unblock":
 				if t.Res == 1 {
